@@ -175,6 +175,23 @@ def literal(model, rep, rule):
                   'unparse / parse', line=c.lineno,
                   witness='x[-1] = v inside an if: Constant(-1) re-parses as '
                   'UnaryOp(USub, Constant(1))')
+  # ... and QN.ast() hands the value back as that constant, structurally: a
+  # round trip through the display string (str(self), which does not escape
+  # string keys) changes d['C:\\temp'] into another key
+  qa = model.cls(QNREL, 'QN').methods.get('ast')
+  if qa is None:
+    raise core.AnalysisError('QN.ast not found')
+  consts = [c for c in ast.walk(qa.node) if isinstance(c, ast.Call) and
+            core.dotted(c.func) == 'ast.Constant' and c.args and
+            core.norm(c.args[0]).endswith('.value')]
+  via_text = [core.norm(c)[:60] for c in ast.walk(qa.node) if isinstance(c, ast.Call) and (
+      (core.dotted(c.func) or '').endswith('parse_expression') or
+      core.dotted(c.func) in ('str', 'repr', 'ast.parse', 'eval'))]
+  rep.check(bool(consts) and not via_text, rule, '%s:structural' % qa.site,
+            'QN.ast must rebuild the name from its parts (a Literal as '
+            'ast.Constant(value)), never by parsing its display string',
+            {'through_text': via_text}, line=qa.node.lineno,
+            witness="d['C:\\temp'] modified in an if: the getter reads d['C:<TAB>emp']")
   return n
 
 
